@@ -129,6 +129,8 @@ def graph_case(g: Graph, fam: str, stage: str, **kw) -> dict:
     lab = get_labeling()
     if lab is not None:
         d["labeling"] = {"prefix": lab[0], "names": list(lab[1]), "insertion_order": list(lab[2])}
+        if len(lab) > 3:
+            d["labeling"]["generator"] = lab[3]
     d.update(kw)
     return d
 
